@@ -66,6 +66,8 @@ type c10Ret struct {
 	It  *Intr
 	N   int
 	Err string
+	// Tracer: how many times the body-phase tracer rule had fired when the call returned
+	Tracer int
 }
 
 type c10Obs struct {
@@ -139,6 +141,11 @@ func (c *C10Case) run(mem int) (*c10Obs, *Failure) {
 				it, n, err = tx.ReadResponseBodyFrom(rd)
 			}
 			r := c10Ret{It: intrOf(it), N: n}
+			for _, mr := range tx.MatchedRules() {
+				if mr.Rule().ID() == 1 {
+					r.Tracer++
+				}
+			}
 			if err != nil {
 				r.Err = err.Error()
 			}
@@ -292,6 +299,12 @@ func checkC10(c *C10Case) Result {
 				}
 				if r.N != take {
 					res.Fail = failf("chunk %d: n=%d, expected %d (limit %d, %d stored before); %s", i, r.N, take, c.Limit, cur, desc)
+					return res
+				}
+				if m.done && r.Tracer != 1 {
+					// the write that reaches the limit runs the body phase itself: its return value is how a
+					// streaming connector learns about a phase-2/4 interruption of the truncated body
+					res.Fail = failf("chunk %d reached the limit under ProcessPartial but the body phase had run %d times when the call returned; %s", i, r.Tracer, desc)
 					return res
 				}
 				m.stored = append(m.stored, ch[:take]...)
@@ -528,7 +541,7 @@ func checkC10Buf(c *C10BufCase) Result {
 		}
 		// final full read through a fresh reader
 		r, _ := bb.Reader()
-		all, err := io.ReadAll(r)
+		all, err := boundedReadAll(r, c.Limit+64)
 		if err != nil || !bytes.Equal(all, model) {
 			res.Fail = failf("final read %q err %v, expected %q; ops %v", all, err, model, c.Ops)
 			return
@@ -546,6 +559,24 @@ func checkC10Buf(c *C10BufCase) Result {
 		res.Fail = f
 	}
 	return res
+}
+
+// boundedReadAll is io.ReadAll with a bound on the number of Read calls, so a reader that keeps
+// returning (0, nil) is reported instead of hanging the check.
+func boundedReadAll(r io.Reader, maxCalls int) ([]byte, error) {
+	var out []byte
+	buf := make([]byte, 7)
+	for i := 0; i < maxCalls*2+16; i++ {
+		n, err := r.Read(buf)
+		out = append(out, buf[:n]...)
+		if err == io.EOF {
+			return out, nil
+		}
+		if err != nil {
+			return out, err
+		}
+	}
+	return out, fmt.Errorf("reader did not reach EOF after %d Read calls", maxCalls*2+16)
 }
 
 func TestC10Buffer(t *testing.T) {
